@@ -1,7 +1,7 @@
 SPECIFICATION FairSpec
 CONSTANTS
   P = 3
-  J = 1
+  JobIds = {3}
   R = 2
   BossWorks = FALSE
 PROPERTY Termination
